@@ -100,9 +100,7 @@ func callerOutsideHarness() string {
 			if i := strings.LastIndex(fn, "/"); i >= 0 {
 				fn = fn[i+1:]
 			}
-			if i := strings.Index(fn, "["); i >= 0 {
-				fn = fn[:i]
-			}
+			fn = typeArgs.ReplaceAllString(fn, "")
 			return strings.TrimSuffix(fn, ".func1")
 		}
 		if !more {
@@ -129,6 +127,8 @@ func (b *gatedBody) Seek(off int64, whence int) (int64, error) {
 }
 
 var _ io.ReadSeeker = (*gatedBody)(nil)
+
+var typeArgs = regexp.MustCompile(`\[[^\]]*\]`)
 
 var goroutineHeader = regexp.MustCompile(`(?m)^goroutine (\d+) \[([^\]]*)\]:$`)
 
@@ -572,14 +572,8 @@ func c12PingLife(e *c12Out, tr *poolTracker, desc, arg string) {
 			if c.call != nil {
 				c.lastCon = c.call.mid
 			}
-			os, ok := c.step(parseC12eStep("p:1:0:4:a"), "p:1:0:4:a")
-			if !ok {
+			if _, ok := c.step(parseC12eStep("p:1:0:4:a"), "p:1:0:4:a"); !ok {
 				c.flag("answer-failed")
-			}
-			if dbgC12() {
-				for _, o := range os {
-					fmt.Println("answer obs:", o.kind, o.bucket, o.call, c.win.delivered, c.win.stuck, c.errs)
-				}
 			}
 			if c.call != nil {
 				c.flag("request-not-completed-by-its-response")
